@@ -295,6 +295,9 @@ class SoftwareSwitchBase (object):
     """
     self.log.debug("Flow mod details: %s", ofp.show())
 
+    # Only the low 22 wildcard bits are defined; ignore the rest
+    ofp.match.wildcards &= OFPFW_ALL
+
     #self.table.process_flow_mod(ofp)
     #self._process_flow_mod(ofp, connection=connection, table=self.table)
     handler = self.flow_mod_handlers.get(ofp.command)
